@@ -16,6 +16,11 @@ enum Vis {
     PubCrate,
     PubSuper,
     PubInA,
+    /// explicit spellings of "private": `pub(self)`, `pub(in self)`
+    PubSelf,
+    PubInSelf,
+    /// `pub(in super)`: the other spelling of `pub(super)`
+    PubInSuper,
 }
 
 impl Vis {
@@ -26,6 +31,9 @@ impl Vis {
             Vis::PubCrate => "pub(crate) ".into(),
             Vis::PubSuper => "pub(super) ".into(),
             Vis::PubInA => format!("pub(in crate::{case}::a) "),
+            Vis::PubSelf => "pub(self) ".into(),
+            Vis::PubInSelf => "pub(in self) ".into(),
+            Vis::PubInSuper => "pub(in super) ".into(),
         }
     }
 
@@ -43,8 +51,8 @@ const EXTERN_SITE: &str = "other crate";
 fn accessible(v: Vis, site: &str) -> bool {
     match v {
         Vis::Pub | Vis::PubCrate => true,
-        Vis::Private => matches!(site, "same" | "child"),
-        Vis::PubSuper => matches!(site, "same" | "child" | "sibling"), // within a::b
+        Vis::Private | Vis::PubSelf | Vis::PubInSelf => matches!(site, "same" | "child"),
+        Vis::PubSuper | Vis::PubInSuper => matches!(site, "same" | "child" | "sibling"), // within a::b
         Vis::PubInA => matches!(site, "same" | "child" | "sibling" | "uncle"), // within a
     }
 }
@@ -115,23 +123,22 @@ fn build(case: &str, mode: &str, v: Vis, item_vis: &str, site: &str) -> Probe {
 
 fn all_probes() -> Vec<(String, String, Vis, String, String)> {
     let mut out = vec![];
-    for v in [Vis::Private, Vis::Pub, Vis::PubCrate, Vis::PubSuper, Vis::PubInA] {
+    for v in [Vis::Private, Vis::Pub, Vis::PubCrate, Vis::PubSuper, Vis::PubInA, Vis::PubSelf, Vis::PubInSelf, Vis::PubInSuper] {
         for iv in ["", "pub ", "pub(crate) "] {
             for s in SITES {
                 out.push(("fn".to_string(), String::new(), v, iv.to_string(), s.to_string()));
             }
         }
     }
-    // module mode: `pub(super)` names another scope inside the module than next to it (outside the quantifier: don't-care);
-    // an absolute `pub(in path)` means the same in both places and is probed
-    for v in [Vis::Private, Vis::Pub, Vis::PubCrate, Vis::PubInA] {
+    // module mode: a relative visibility is relative to where the attribute is written (the parent of the module)
+    for v in [Vis::Private, Vis::Pub, Vis::PubCrate, Vis::PubInA, Vis::PubSuper, Vis::PubSelf, Vis::PubInSuper] {
         for iv in ["", "pub "] {
             for s in SITES {
                 out.push(("mod".to_string(), String::new(), v, iv.to_string(), s.to_string()));
             }
         }
     }
-    for v in [Vis::Private, Vis::Pub, Vis::PubCrate, Vis::PubInA] {
+    for v in [Vis::Private, Vis::Pub, Vis::PubCrate, Vis::PubInA, Vis::PubSuper, Vis::PubInSelf] {
         for iv in ["", "pub "] {
             for s in SITES {
                 out.push(("mod_path".to_string(), String::new(), v, iv.to_string(), s.to_string()));
@@ -139,7 +146,7 @@ fn all_probes() -> Vec<(String, String, Vis, String, String)> {
         }
     }
     for mode in ["trait_static", "trait_ref"] {
-        for v in [Vis::Private, Vis::Pub, Vis::PubCrate, Vis::PubSuper, Vis::PubInA] {
+        for v in [Vis::Private, Vis::Pub, Vis::PubCrate, Vis::PubSuper, Vis::PubInA, Vis::PubSelf, Vis::PubInSelf] {
             // `item_vis` here is the visibility keyword written before the delegation-target trait's name
             for iv in ["", "pub ", "pub(crate) "] {
                 for s in SITES {
@@ -169,11 +176,11 @@ fn compile_single_with(src: &str, xlib: Option<String>) -> Result<(), String> {
 }
 
 pub fn run(ctx: &mut Ctx) {
-    ctx.rule = "the complete lattice {fn x requested {none, pub, pub(crate), pub(super), pub(in path)} x fn visibility {none, pub, pub(crate)}} + {mod x requested {none, pub, pub(crate), pub(in path)} x mod \
-                visibility {none, pub}, named through the re-export and through the module path} + {trait, static and ref delegation (delegation-target trait) x trait visibility (5) x visibility keyword written before the target trait's name {none, pub, pub(crate)}} x 6 access sites (defining module, child, sibling, uncle, case root, cousin) + the same lattice points in a library crate named from a second crate (7th site); one compiled probe \
+    ctx.rule = "the complete lattice {fn x requested {none, pub, pub(crate), pub(super), pub(in path), pub(self), pub(in self), pub(in super)} x fn visibility {none, pub, pub(crate)}} + {mod x requested {none, pub, pub(crate), pub(in path), pub(super), pub(self) / pub(in self), pub(in super)} x mod \
+                visibility {none, pub}, named through the re-export and through the module path} + {trait, static and ref delegation (delegation-target trait) x trait visibility (7) x visibility keyword written before the target trait's name {none, pub, pub(crate)}} x 6 access sites (defining module, child, sibling, uncle, case root, cousin) + the same lattice points in a library crate named from a second crate (7th site); one compiled probe \
                 per point; non-trivial = probes expected to be rejected (the trait must not be wider than requested) - counted distinct by (mode, visibilities, site)"
         .into();
-    ctx.assumptions.push("don't-cares: module mode with the relative `pub(super)` (it names a different scope inside the module than next to it; outside the quantifier), the visibility of the selector trait `DelegateTr`".into());
+    ctx.assumptions.push("don't-care: the visibility of the selector trait `DelegateTr`".into());
     let list = all_probes();
     let mut batch = Batch::new("c13", Opts { feature_unimock: false, members: 16, check_only: true, ..Default::default() });
     let mut probes: Vec<Probe> = vec![];
